@@ -768,6 +768,9 @@ func genStorageTable(c Chooser, maxDim, n int) []float64 {
 
 	level := Float(c, 0, 100)
 	vol := 0.0
+	// one storage in eight is "unconfigured": a table without any volume, which the kernel rejects
+	// (message, zero outputs, states untouched) - a defined behaviour that large networks rely on
+	unconfigured := c.Choose(8) == 7
 	for k := 0; k < n; k++ {
 		if k > 0 {
 			level += Float(c, 0.5, 10)
@@ -775,6 +778,12 @@ func genStorageTable(c Chooser, maxDim, n int) []float64 {
 		}
 		levels[k] = level
 		volumes[k] = vol
+	}
+	if unconfigured {
+		for k := range volumes {
+			volumes[k] = 0
+		}
+		return out
 	}
 	const minMeanDepth = 0.5
 	const maxReleasePerVolume = 1.0 / 3600
